@@ -42,7 +42,7 @@ def run_worker(mods, cid, mode, timeout_ms, only=None, wall=3600):
 
 def run_native(args, wall=None):
     if wall is None:
-        wall = 240 if (len(args) > 2 and args[2] == "quick") or args[0] == "replay" else 3000
+        wall = 240 if (len(args) > 2 and args[2] == "quick") or args[0] == "replay" else 4 * 3600
     env = dict(os.environ)
     env["PYTHONPATH"] = os.environ.get("VERIF_REPO", "/repo") + ":" + VERIF
     try:
